@@ -183,7 +183,11 @@ func CoerceToList(arg Object) (result Object) {
 		}
 		result = list
 	case VectorLike:
-		result = ta.AsList()
+		// a new list, it must not share the storage of the vector
+		elements := ta.AsList()
+		list := make(List, len(elements))
+		copy(list, elements)
+		result = list
 	default:
 		coerceNotPossible(ta, "list")
 	}
@@ -210,7 +214,10 @@ func CoerceToVector(arg Object, mods ...Object) (result Object) {
 		}
 		result = NewVector(len(elements), CharacterSymbol, nil, elements, false)
 	case List:
-		result = NewVector(len(ta), TrueSymbol, nil, ta, true)
+		// a new vector, it must not share the storage of the list
+		elements := make(List, len(ta))
+		copy(elements, ta)
+		result = NewVector(len(elements), TrueSymbol, nil, elements, true)
 	default:
 		coerceNotPossible(ta, "vector")
 	}
